@@ -320,8 +320,8 @@ pub const MS: u64 = 1_000_000;
 pub(crate) fn post(c: &AnyCache) -> Value {
     let s = c.snapshot();
     json!({
-        "store": s.entries.iter().map(|e| json!({"i":e.index,"c":e.conflict,"v":e.value.id,"r":e.value.rev,"d":e.d / MS,"at":e.at / MS})).collect::<Vec<_>>(),
-        "em": s.buckets.iter().flat_map(|(b, ks)| ks.iter().map(move |(k, c)| json!([b, k, c]))).collect::<Vec<_>>(),
+        "store": s.entries.iter().map(|e| json!({"i":e.index,"c":e.conflict,"v":e.value.id,"r":e.value.rev,"d":if e.d == u64::MAX { HUGE_MS } else { e.d / MS },"at":e.at / MS})).collect::<Vec<_>>(),
+        "em": s.buckets.iter().flat_map(|(b, ks)| ks.iter().map(move |(k, c)| json!([if *b == i64::MAX { LAST_BUCKET } else { *b }, k, c]))).collect::<Vec<_>>(),
         "costs": s.costs.iter().map(|(k, c)| json!([k, c])).collect::<Vec<_>>(),
         "used": s.used, "max": s.max_cost, "buf": s.buf_len, "clearq": s.clear_len, "stopq": s.stop_len,
         "closed": s.closed, "polclosed": s.pol_closed, "len": s.len, "ring": s.ring_len, "polq": s.pol_queue_len,
@@ -878,6 +878,14 @@ impl World {
             St::Done => "done".to_string(),
             x => format!("{:?}", x),
         };
+        if let Some(pm) = result.as_ref().and_then(|v| v.get("panic")) {
+            // the handler panicked: in the real loop this kills the processor thread.  Recorded as an event the
+            // specification has no step for; the processor is gone from here on.
+            self.emit(json!({"ev":"Panic","during":format!("processor, branch {:?}, from {}", b, from),"msg":pm}));
+            self.proc_exited = true;
+            *self.proc_.lock() = None;
+            return;
+        }
         let res_s = result.as_ref().and_then(|v| v.as_str().map(|s| s.to_string())).unwrap_or_default();
         let name: String = match (from, reached.as_str()) {
             ("start", _) if res_s == "NotReady" => "Skip".into(),
@@ -1124,10 +1132,26 @@ fn res_str<T, E: std::fmt::Display>(r: Result<T, E>) -> Value {
     }
 }
 
+/// the TTL the harness writes as HUGE_MS stands for `Duration::MAX` ("never", e.g. copied from get_ttl() of an entry
+/// without TTL); the specification's integers are 32-bit, so HUGE_MS (about 23 days) represents it there
+pub const HUGE_MS: u64 = 2_000_000_000;
+/// bucket number i64::MAX (where a saturated deadline is filed) as the specification writes it
+pub const LAST_BUCKET: i64 = 2_147_483_647;
+
+pub fn ttl_of(ms: u64) -> Duration {
+    if ms == HUGE_MS {
+        Duration::MAX
+    } else {
+        Duration::from_millis(ms)
+    }
+}
+
 fn ttl_json(t: Option<Duration>) -> Value {
     match t {
         None => Value::Null,
         Some(d) if d == Duration::MAX => json!(-1),
+        // remaining time of a never-expiring TTL: Duration::MAX - elapsed, written as HUGE_MS - elapsed
+        Some(d) if d.as_millis() > HUGE_MS as u128 => json!(HUGE_MS - (Duration::MAX - d).as_millis() as u64),
         Some(d) => json!(d.as_millis() as u64),
     }
 }
@@ -1140,7 +1164,7 @@ fn make_job(cache: AnyCache, cmd: Cmd, v: u64) -> Box<dyn FnOnce() -> Value + Se
                 let r = if only {
                     c.try_insert_if_present(k, val, cost)
                 } else if ttl > 0 {
-                    c.try_insert_with_ttl(k, val, cost, Duration::from_millis(ttl))
+                    c.try_insert_with_ttl(k, val, cost, ttl_of(ttl))
                 } else {
                     c.try_insert(k, val, cost)
                 };
@@ -1183,7 +1207,7 @@ fn make_job(cache: AnyCache, cmd: Cmd, v: u64) -> Box<dyn FnOnce() -> Value + Se
                 let r = if only {
                     bo(c.try_insert_if_present(k, val, cost))
                 } else if ttl > 0 {
-                    bo(c.try_insert_with_ttl(k, val, cost, Duration::from_millis(ttl)))
+                    bo(c.try_insert_with_ttl(k, val, cost, ttl_of(ttl)))
                 } else {
                     bo(c.try_insert(k, val, cost))
                 };
@@ -1458,7 +1482,7 @@ pub fn profile(name: &str, flavor: &'static str) -> Profile {
             w: [10, 30, 5, 8, 15, 10, 15, 2, 0, 1, 0, 2],
             p_advance: 0.35,
             p_tick: 0.5,
-            ttls: vec![1, 300, 500, 999, 1000, 1001, 1500, 2500, 3_600_000],
+            ttls: vec![1, 300, 500, 999, 1000, 1001, 1500, 2500, 3_600_000, HUGE_MS],
             advances: vec![1, 100, 250, 499, 500, 501, 999, 1000, 1001, 2000],
             max_cost: (40, 60),
             keys: vec![0, 2, 3, 4, 5, 9],
@@ -1509,7 +1533,7 @@ pub fn profile(name: &str, flavor: &'static str) -> Profile {
             p_advance: 0.12,
             p_tick: 0.4,
             p_pol: 0.8,
-            ttls: vec![300, 1000, 1500],
+            ttls: vec![300, 1000, 1500, HUGE_MS],
             advances: vec![400, 1000, 1600],
             buffer_items: vec![0, 1, 2, 64],
             num_counters: (1..=70).collect(),
